@@ -5,7 +5,7 @@ from .. import core, dkggen
 ID = "C08"
 MODULE = "DrandProofs.C08"
 THEOREMS = ["Drand.DKG." + t for t in [
-    "tie_transition_table", "tie_terminal", "tie_proposal_phase", "tie_process_steps_atomic", "c08_legal", "c08_error_no_write",
+    "tie_transition_table", "tie_terminal", "tie_proposal_phase", "tie_process_steps_atomic", "tie_validate_epoch", "c08_left_epoch_increases", "c08_legal", "c08_error_no_write",
     "c08_finished_only_by_completion", "c08_completion_whole", "c08_epoch_inv_step", "c08_finished_monotone",
     "c08_epoch_inv_run", "c08_retry_same_epoch", "c08_rejects_stale_epoch", "c08_rejects_same_epoch_unless_terminal",
     "c08_rejects_epoch_jump", "c08_rejects_expired", "c08_rejects_threshold_high", "c08_rejects_threshold_low",
@@ -64,6 +64,23 @@ def oracle_history(mops, replies, now):
         cls, ncur, nfin = dkggen.parse_reply(rep)
         if ncur is not None and "raw" in ncur or nfin is not None and "raw" in (nfin or {}):
             return (f"{op}: unparsable state dump {rep[:200]}", "dump")
+        if f[0] == "seq":
+            # a gated pair (a packet served while a command sat between its read and its write): every state written, in the
+            # order it was written, must be a legal successor of the one stored before it
+            parts = [x.strip() for x in cls.split(";;")]
+            if any(x.startswith("err:panic") for x in parts):
+                return (f"{op}: the process panicked", "panic")
+            saves = [] if len(parts) < 3 or parts[2] == "saves=-" else parts[2].split("=", 1)[1].split(",")
+            st = base_of(cur, fin)["state"]
+            for nxt in saves:
+                if nxt != st and nxt not in TABLE[st]:
+                    return (f"{op}: the stored state went {st} -> {nxt} (writes in order: {saves}): a command computed from a stale read overwrote "
+                            "what the packet had stored", "non-atomic-command:illegal-transition")
+                st = nxt if nxt not in TERMINAL else (fin or FRESH)["state"]
+            if nfin != fin:
+                return (f"{op}: the completed record changed without a completion", "finished-rewritten")
+            cur, fin = ncur, nfin
+            continue
         if cls.startswith("err:panic"):
             return (f"{op}: the process panicked", "panic")
         if cls.startswith("err:other") or cls == "bad-op":
@@ -176,7 +193,11 @@ def histories(ctx, n):
     for f in sorted(glob.glob(os.path.join(core.VERIF, "corpus", "C08", "*.json")) + glob.glob(os.path.join(core.VERIF, "corpus", "C09", "*.json"))):
         hs.append(json.load(open(f))["ops"])
     hs += dkggen.directed_histories(dkggen.SCH[ctx["seed"] % 5])
+    hs += dkggen.epoch_sweep_histories(dkggen.SCH[ctx["seed"] % 5])
     if ctx["tier"] != "quick" or ctx.get("deep"):
+        for sc in dkggen.SCH:
+            if sc != dkggen.SCH[ctx["seed"] % 5]:
+                hs += dkggen.epoch_sweep_histories(sc, E=3 + dkggen.SCH.index(sc) % 3)
         for sc in dkggen.SCH:
             if sc != dkggen.SCH[ctx["seed"] % 5]:
                 hs += dkggen.directed_histories(sc)
@@ -207,12 +228,60 @@ def shrink(ops, bad):
     return head + body
 
 
+def norm_state(st):
+    """what two runs of the same history must agree on (absolute times differ from run to run)"""
+    if st is None:
+        return None
+    return tuple((k, tuple(v) if isinstance(v, list) else v) for k, v in sorted(st.items()) if k not in ("timeout", "genesis", "fg"))
+
+
+def final_of(impl):
+    cls, cur, fin = dkggen.parse_reply(impl[-1])
+    return (norm_state(cur), norm_state(fin))
+
+
+def gate_check(ctx, res, prop):
+    """Command's read-modify-write is atomic: a packet that arrives while a command sits between its read of the stored state
+    and the rest is served either wholly before or wholly after the command. Runs every gated pair on the real process next to
+    the two sequential orders of the same pair (all three on the implementation) and requires the gated outcome — answers and
+    final stored state — to be one of the two. Returns (histories to run through the ordinary oracle too, count)."""
+    groups = []
+    for sc in ([dkggen.SCH[ctx["seed"] % 5]] if not (ctx["tier"] != "quick" or ctx.get("deep")) else dkggen.SCH):
+        groups += dkggen.gate_groups(sc)
+    flat = [h for g in groups for h in g[1:]]
+    by_ops = {tuple(ops): (mops, impl, model) for ops, mops, impl, model in run_histories(ctx, res, flat, prop)}
+    bad = 0
+    for name, gated, cmd_first, pkt_first in groups:
+        gm, gi, _ = by_ops[tuple(gated)]
+        _, ai, _ = by_ops[tuple(cmd_first)]
+        _, bi, _ = by_ops[tuple(pkt_first)]
+        parts = [x.strip() for x in gi[-2].split(" | ")[0].split(";;")]
+        order_cmd_first = gm[-2].split()[1] == "cmd"
+        got_cls = (parts[0], parts[1]) if order_cmd_first else (parts[1], parts[0])       # (cmd answer, pkt answer)
+        got = (got_cls, final_of(gi))
+        seq_a = ((ai[-3].split(" | ")[0], ai[-2].split(" | ")[0]), final_of(ai))
+        seq_b = ((bi[-2].split(" | ")[0], bi[-3].split(" | ")[0]), final_of(bi))
+        if got != seq_a and got != seq_b and bad == 0:
+            bad += 1
+            res.report("non-atomic-command:not-serialisable",
+                       {"engine": "dkgsm", "kind": "impl-violates", "ops": gated, "observed": gi[-2:],
+                        "expected": ["command first: " + str(ai[-3:-1]), "packet first: " + str(bi[-3:-1])],
+                        "oracle": f"gated pair {name}: the packet was served while the command sat between its read of the stored state and its "
+                                  f"write; answers (command, packet) = {got_cls} and the final state match neither sequential order — the "
+                                  "command's read-modify-write is not atomic with respect to packets"})
+    return [g[1] for g in groups], len(groups)
+
+
 def explore(ctx, res, oracle=oracle_history, prop="C08"):
     tier = "thorough" if ctx["deep"] else ctx["tier"]
     n = 150 if tier == "quick" else 4000
-    runs = run_histories(ctx, res, histories(ctx, n), prop)
+    gated, n_gated = ([], 0)
+    if prop == "C08":
+        gated, n_gated = gate_check(ctx, res, prop)
+    runs = run_histories(ctx, res, histories(ctx, n) + gated, prop)
     total = validated = 0
     classes, nontriv, samples = {}, set(), []
+    reported = {}
     diverged = None
     for ops, mops, impl, model in runs:
         total += len(ops)
@@ -226,6 +295,11 @@ def explore(ctx, res, oracle=oracle_history, prop="C08"):
         v = oracle(mops, impl, now)
         if v:
             why, sig = v
+            if sig in reported:
+                # one replay per kind of failure (the first history that shows it, shrunk) is what a reader needs
+                reported[sig] += 1
+                continue
+            reported[sig] = 1
             def bad(m, i, sig=sig, now=now):
                 x = oracle(m, i, now)
                 return x is not None and x[1] == sig
@@ -252,4 +326,5 @@ def explore(ctx, res, oracle=oracle_history, prop="C08"):
                        "(propose, join/accept/reject, execute, complete/fail/abort, retry) with 30-45% adversarial noise (commands at the wrong moment, 26 single-field "
                        "mutations of the terms, wrong signer, wrong claimed sender, signature over other terms, replays, short signatures, stray completions); "
                        "evaluations = op lines; non-trivial = distinct history that visits at least 3 different states")
-    res.cov["distribution"] = {"outcome_classes": dict(sorted(classes.items(), key=lambda x: -x[1])[:40])}
+    res.cov["distribution"] = {"outcome_classes": dict(sorted(classes.items(), key=lambda x: -x[1])[:40]), "gated_pairs": n_gated,
+                               "histories_failing_per_signature": dict(reported)}
